@@ -323,8 +323,6 @@ func (s *Session) Close() error {
 	vpo(vpSessCloseBeforeCh, s, 0)
 	close(s.shutdownCh)
 	s.dispatcher.post(func() {
-		s.shutdownLock.Lock()
-		defer s.shutdownLock.Unlock()
 		vpo(vpSessTeardownBegin, s, 0)
 		//firstly close eventConn
 		s.eventConn.close()
@@ -339,6 +337,10 @@ func (s *Session) Close() error {
 			stream.asyncGoroutineWg.Wait()
 		}
 
+		// shutdownLock only guards the release of the memory: it must not be held while waiting for running callbacks
+		// above, an OnData whose Flush fails goes through exitErr, which takes this lock
+		s.shutdownLock.Lock()
+		defer s.shutdownLock.Unlock()
 		vpo(vpSessTeardownBeforeUnmap, s, 0)
 		if s.bufferManager != nil {
 			addGlobalBufferManagerRefCount(s.bufferManager.path, -1)
